@@ -182,15 +182,17 @@ impl ElementRaw {
 
         let mut cur_elem_opt = self.parent()?;
         while let Some(cur_elem) = &cur_elem_opt {
-            if let Some(name) = cur_elem
+            // parent elements may only be locked with try_lock (see above), and only once per level
+            let cur_elem_locked = cur_elem
                 .0
                 .try_read_for(std::time::Duration::from_millis(10))
-                .ok_or(AutosarDataError::ParentElementLocked)?
-                .item_name()
-            {
+                .ok_or(AutosarDataError::ParentElementLocked)?;
+            if let Some(name) = cur_elem_locked.item_name() {
                 path_components.push(name);
             }
-            cur_elem_opt = cur_elem.parent()?;
+            let next_elem_opt = cur_elem_locked.parent()?;
+            drop(cur_elem_locked);
+            cur_elem_opt = next_elem_opt;
         }
         path_components.push(String::new());
         path_components.reverse();
